@@ -25,19 +25,26 @@ type weights struct {
 	strCancel                                int
 	send, grant, exec, feeAllow, updParams   int
 	govEvery                                 int // a governance parameter change about every n blocks (0 = never)
+	govModule                                int // -1 any module, 0 enterprise, 1 wrkchain, 2 beacon, 3 stream
 	checkPerBlock                            int // CheckTx operations after each commit (max)
 	tinyLimits                               bool
 }
 
 var focusWeights = map[string]weights{
-	"mixed":  {8, 10, 3, 6, 14, 5, 6, 8, 4, 3, 3, 5, 3, 4, 2, 2, 5, 1, true},
-	"ent":    {14, 22, 6, 3, 6, 1, 1, 1, 0, 0, 0, 3, 1, 2, 1, 1, 4, 0, true},
-	"reg":    {2, 3, 1, 10, 30, 12, 0, 0, 0, 0, 0, 2, 3, 5, 1, 1, 5, 0, true},
-	"stream": {1, 1, 0, 1, 1, 0, 12, 18, 8, 6, 5, 4, 2, 3, 1, 1, 5, 0, true},
-	"fees":   {5, 6, 2, 8, 14, 8, 1, 1, 0, 0, 0, 2, 3, 4, 3, 0, 6, 6, true},
+	"mixed":  {8, 10, 3, 6, 14, 5, 6, 8, 4, 3, 3, 5, 3, 4, 2, 2, 5, -1, 1, true},
+	"ent":    {14, 22, 6, 3, 6, 1, 1, 1, 0, 0, 0, 3, 1, 2, 1, 1, 4, -1, 0, true},
+	"entgov": {12, 30, 3, 0, 0, 0, 0, 0, 0, 0, 0, 1, 0, 0, 0, 0, 2, 0, 0, true},
+	"efund":  {16, 26, 4, 8, 22, 6, 0, 0, 0, 0, 0, 1, 0, 1, 2, 0, 0, -1, 2, true},
+	"reg":    {2, 3, 1, 10, 30, 12, 0, 0, 0, 0, 0, 2, 3, 5, 1, 1, 5, -1, 0, true},
+	"reggov": {0, 0, 0, 8, 30, 16, 0, 0, 0, 0, 0, 1, 2, 4, 0, 0, 2, 12, 0, true},
+	"stream": {1, 1, 0, 1, 1, 0, 12, 18, 8, 6, 5, 4, 2, 3, 1, 1, 5, -1, 0, true},
+	"strgov": {0, 0, 0, 0, 0, 0, 12, 22, 8, 6, 5, 2, 0, 0, 0, 0, 2, 3, 0, true},
+	"fees":   {5, 6, 2, 8, 14, 8, 1, 1, 0, 0, 0, 2, 3, 4, 3, 0, 6, -1, 6, true},
 }
 
 type history struct {
+	focus   string
+	aimPair *[2]int // a stream the current block is aimed at (block time placed around its zero time)
 	c       *chain
 	r       *rng
 	w       weights
@@ -172,6 +179,22 @@ func (h *history) livePairs() [][2]int {
 
 func (h *history) anyAcct() int { return h.r.intn(len(h.c.accts)) }
 
+// lockedHolderOrAny prefers (in the efund focus) an account that currently holds locked eFUND
+func (h *history) lockedHolderOrAny() int {
+	if h.focus == "efund" && h.r.chance(3, 4) {
+		var hs []int
+		for i := range h.c.accts {
+			if h.c.app.EnterpriseKeeper.GetLockedUndAmountForAccount(h.c.ctx(), h.c.addrOf(i)).Amount.IsPositive() {
+				hs = append(hs, i)
+			}
+		}
+		if len(hs) > 0 {
+			return hs[h.r.intn(len(hs))]
+		}
+	}
+	return h.anyAcct()
+}
+
 func (h *history) randText(maxLen int) string {
 	n := 1 + h.r.intn(12)
 	switch h.r.intn(90) {
@@ -230,6 +253,9 @@ func (h *history) genMsg(depth int) mmsg {
 		if r.chance(1, 10) {
 			amt = sdk.NewIntFromBigInt(r.bigBits(40 + r.intn(100))).AddRaw(1)
 		}
+		if h.focus == "efund" && r.chance(4, 5) {
+			amt = sdk.NewInt(int64(1 + r.intn(1500))) // locked balances around the size of the registry fees
+		}
 		return c.mEntRaise(p, denom, amt)
 	case pick(w.entDecide):
 		if len(h.posWithStatus(enttypes.StatusRaised)) == 0 && r.chance(5, 6) {
@@ -276,7 +302,7 @@ func (h *history) genMsg(depth int) mmsg {
 		return c.mEntWhitelist(s, h.anyAcct(), act)
 	case pick(w.regRegister):
 		wrk := r.chance(1, 2)
-		return c.mRegRegister(wrk, h.anyAcct(), h.randText(64), h.randText(128), h.randText(66), h.randText(10))
+		return c.mRegRegister(wrk, h.lockedHolderOrAny(), h.randText(64), h.randText(128), h.randText(66), h.randText(10))
 	case pick(w.regRecord):
 		wrk := r.chance(1, 2)
 		regs := h.regs(wrk)
@@ -404,6 +430,9 @@ func (h *history) genMsg(depth int) mmsg {
 			p := live[r.intn(len(live))]
 			rc, sn = p[0], p[1]
 		}
+		if h.aimPair != nil && r.chance(3, 4) {
+			rc, sn = h.aimPair[0], h.aimPair[1]
+		}
 		h.obs.watchPair(rc, sn)
 		tw := w.strClaim + w.strTopUp + w.strUpdate + w.strCancel
 		y := r.intn(tw)
@@ -490,13 +519,37 @@ func minI64(a, b int64) int64 {
 func (h *history) genUpdParams(authority int, valid bool) mmsg {
 	c, r := h.c, h.r
 	ctx := c.ctx()
-	switch r.intn(4) {
+	which := r.intn(4)
+	if authority == mGov && h.w.govModule >= 0 {
+		switch h.w.govModule {
+		case 0:
+			which = 0
+		case 12: // wrkchain or beacon
+			which = 1 + r.intn(2)
+		case 3:
+			which = 3
+		}
+	}
+	switch which {
 	case 0:
 		p := c.app.EnterpriseKeeper.GetParams(ctx)
 		n := 1 + r.intn(3)
 		var signers []string
-		for i := 0; i < n; i++ {
-			signers = append(signers, c.addrOf(h.anyAcct()).String())
+		cur := strings.Split(p.EntSigners, ",")
+		if r.chance(2, 3) { // shrink or grow the current signer set: decisions already made stay on the orders
+			for _, s := range cur {
+				if r.chance(1, 2) {
+					signers = append(signers, s)
+				}
+			}
+			if r.chance(1, 3) || len(signers) == 0 {
+				signers = append(signers, c.addrOf(h.anyAcct()).String())
+			}
+			n = len(signers)
+		} else {
+			for i := 0; i < n; i++ {
+				signers = append(signers, c.addrOf(h.anyAcct()).String())
+			}
 		}
 		p.EntSigners = strings.Join(signers, ",")
 		p.MinAccepts = uint64(1 + r.intn(n))
@@ -592,6 +645,39 @@ type genTx struct {
 	feeKnd string
 }
 
+// regBundle: 2-4 messages of ONE registry module by one owner, ids repeated (several purchases / records for the same id)
+func (h *history) regBundle() []mmsg {
+	c, r := h.c, h.r
+	wrk := r.chance(1, 2)
+	regs := h.regs(wrk)
+	if len(regs) == 0 {
+		return nil
+	}
+	g := regs[r.intn(len(regs))]
+	if g.owner < 0 {
+		return nil
+	}
+	var out []mmsg
+	k := 2 + r.intn(3)
+	last := g.last
+	for i := 0; i < k; i++ {
+		switch r.intn(4) {
+		case 0:
+			out = append(out, c.mRegRegister(wrk, g.owner, h.randText(64), h.randText(128), h.randText(66), "t"))
+		case 1:
+			last += uint64(1 + r.intn(3))
+			key := last
+			if !wrk {
+				key = uint64(c.now.Unix())
+			}
+			out = append(out, c.mRegRecord(wrk, g.owner, g.id, key, []string{h.randText(66), "", "", "", ""}))
+		default:
+			out = append(out, c.mRegPurchase(wrk, g.owner, g.id, uint64(1+r.intn(3))))
+		}
+	}
+	return out
+}
+
 func (h *history) genTx(forCheck bool) genTx {
 	c, r := h.c, h.r
 	n := 1
@@ -599,7 +685,10 @@ func (h *history) genTx(forCheck bool) genTx {
 		n = 2 + r.intn(2)
 	}
 	var msgs []mmsg
-	for i := 0; i < n; i++ {
+	if (h.w.regPurchase > 4) && r.chance(1, 6) {
+		msgs = h.regBundle()
+	}
+	for i := 0; i < n && len(msgs) < n; i++ {
 		m := h.genMsg(0)
 		if m.signer < 0 { // a module account cannot sign: fall back to a plain transfer
 			m = c.mSend(h.anyAcct(), h.anyAcct(), nundCoins(1+int64(r.intn(50))))
@@ -781,6 +870,41 @@ func (h *history) doCheck() {
 	h.results[fmt.Sprintf("check:%d", cls)]++
 	h.item("OpCheck "+g.coq, cls, true, h.c.ctxFor(true))
 	h.mon.afterTx(g, res, cls, true)
+	// the exact fee was refused as too low / too high: search for a fee this build does admit
+	// (sums over sub-multisets of the registry messages) - on a correct build none is admitted
+	if (cls == 51 || cls == 52) && g.feeKnd == "exact" && len(g.msgs) >= 2 && len(g.msgs) <= 4 {
+		tried := map[string]bool{g.spec.fee.String(): true}
+		for mask := 1; mask < (1<<len(g.msgs))-1; mask++ {
+			var sub []mmsg
+			for i, m := range g.msgs {
+				if mask&(1<<i) != 0 {
+					sub = append(sub, m)
+				}
+			}
+			amt, any := h.expectedRegFee(sub)
+			if !any || !amt.IsPositive() {
+				continue
+			}
+			fee := sdk.NewCoins(sdk.NewCoin("nund", amt))
+			if tried[fee.String()] {
+				continue
+			}
+			tried[fee.String()] = true
+			g2 := g
+			g2.spec.fee = fee
+			g2.feeKnd = "candidate"
+			g2.coq = strings.Replace(g.coq, "tx_fee := "+coqCoins(g.spec.fee), "tx_fee := "+coqCoins(fee), 1)
+			h.mon.beforeCheck(g2)
+			res2, _ := h.c.check(g2.spec)
+			cls2 := resClass(res2)
+			h.results[fmt.Sprintf("check-candidate:%d", cls2)]++
+			h.item("OpCheck "+g2.coq, cls2, true, h.c.ctxFor(true))
+			h.mon.afterTx(g2, res2, cls2, true)
+			if cls2 == 0 {
+				break
+			}
+		}
+	}
 }
 
 // governance: submit + vote now, execution happens in the EndBlock after the voting period
@@ -853,6 +977,23 @@ func (h *history) block() bool {
 	dt := dts[r.intn(len(dts))]
 	if r.chance(1, 40) {
 		dt = time.Duration(1+r.intn(300)) * 24 * time.Hour
+	}
+	h.aimPair = nil
+	if h.w.strClaim > 4 && r.chance(1, 3) {
+		// place this block just before / in the same second as / at / just after the advertised zero time of a live stream
+		if live := h.livePairs(); len(live) > 0 {
+			p := live[r.intn(len(live))]
+			if st, ok := c.app.StreamKeeper.GetStream(c.committedCtx(), c.addrOf(p[0]), c.addrOf(p[1])); ok {
+				offs := []time.Duration{-1300 * time.Millisecond, -300 * time.Millisecond, -1, 0, 1, 400 * time.Millisecond, -999999999}
+				target := st.DepositZeroTime.Add(offs[r.intn(len(offs))])
+				if d := target.Sub(c.now); d > time.Millisecond && d < 100*24*time.Hour {
+					dt = d
+					pp := p
+					h.aimPair = &pp
+					h.flags["blocks_aimed_at_zero_time"]++
+				}
+			}
+		}
 	}
 	h.mon.beforeBegin()
 	if p := c.begin(dt); p != nil {
